@@ -3,6 +3,7 @@ import Cirbo.Proofs.GenBasis
 import Cirbo.Proofs.GenPow2
 import Cirbo.Proofs.GenCostX
 import Cirbo.Generated.DocBounds
+import Cirbo.Proofs.GenReturns
 /-!
 # C07 — Summation generators compute exact sums within the promised basis
 
@@ -22,8 +23,9 @@ import Cirbo.Generated.DocBounds
 -- OBLIGATION: c07_gate_count_weighted_naive
 -- OBLIGATION: c07_gate_count_weighted_partial
 -- OBLIGATION: c07_documented_bounds_hold
+-- OBLIGATION: c07_generators_return
 -- THOROUGH-WITNESS: Cirbo.Proofs.GenCostWitness Cirbo.weighted_xaig_documented_bound_fails
--- PARTIAL: gate counts: the documented bounds are proved for add_sum_n_bits (4.5n-2m in XAIG, 7n-3m in AIG), add_sum_n_bits_easy (5n), add_sum_n_weighted_bits_naive (5n-2m, 7n-3m) and add_sum_n_weighted_bits in AIG (7n-3m) — in each case a slightly stronger bound, by a cost semantics of generator programs (Cost, run_cost) and potential arguments. For add_sum_n_weighted_bits in XAIG the documented 4.5n-2m is FALSE (open known finding; Proofs/GenCostWitness.lean exhibits a run of the model with n=35, m=13 and 132 gates, kernel-evaluated in the thorough tier; the harness exhibits it on the code): the theorem proved is 4.5n-1.5m (c07_gate_count_weighted_partial). add_sum_pow2_m1 documents no bound. Termination within the model fuel (no "fuel" failure) is by correspondence. XAIG membership is immediate (every type of the regenerated table is a binary gate type: ttType_ok); weights are naturals in the model.
+-- PARTIAL: gate counts: the documented bounds are proved for add_sum_n_bits (4.5n-2m in XAIG, 7n-3m in AIG), add_sum_n_bits_easy (5n), add_sum_n_weighted_bits_naive (5n-2m, 7n-3m) and add_sum_n_weighted_bits in AIG (7n-3m) — in each case a slightly stronger bound, by a cost semantics of generator programs (Cost, run_cost) and potential arguments. For add_sum_n_weighted_bits in XAIG the documented 4.5n-2m is FALSE (open known finding; Proofs/GenCostWitness.lean exhibits a run of the model with n=35, m=13 and 132 gates, kernel-evaluated in the thorough tier; the harness exhibits it on the code): the theorem proved is 4.5n-1.5m (c07_gate_count_weighted_partial). add_sum_pow2_m1 documents no bound. Termination and totality are proved (c07_generators_return, Proofs/GenTotal*.lean): on valid arguments every summation generator returns — the fuel of every loop suffices, no block gets a list of the wrong length, no label clashes — or stops because the 128-bit space of random labels is exhausted. XAIG membership is immediate (every type of the regenerated table is a binary gate type: ttType_ok); weights are naturals in the model.
 -/
 namespace Cirbo
 
@@ -256,5 +258,44 @@ theorem c07_documented_bounds_hold :
 #print axioms c07_gate_count_weighted_naive
 #print axioms c07_gate_count_weighted_partial
 #print axioms c07_documented_bounds_hold
+
+/-- **every summation generator returns on valid arguments** (operands are gates of the host circuit; a basis
+name that resolves; non-empty operands where the Python code indexes them) — or stops because the 128-bit
+space of random labels is exhausted, the one failure no argument can exclude.  No fuel runs out, no block is
+handed a list of the wrong length, no label clashes: `Proofs/GenTotal*.lean`. -/
+theorem c07_generators_return (st : GSt) :
+    (∀ ins basis b be, BasisArg.resolve basis = .ok b → (∀ l ∈ ins, l ∈ st.c.labels) →
+      Returns (addSumNBits ins basis be) st (fun r => r.length = sa_bitlen ins.length)) ∧
+    (∀ ins be, (∀ l ∈ ins, l ∈ st.c.labels) → Returns (addSumNBitsEasy ins be) st (fun _ => True)) ∧
+    (∀ a b be, (∀ l ∈ a, l ∈ st.c.labels) → (∀ l ∈ b, l ∈ st.c.labels) → a ≠ [] → b ≠ [] →
+      Returns (addSumTwoNumbers a b be) st (fun r => r.length = max a.length b.length + 1)) ∧
+    (∀ shift a b be, (∀ l ∈ a, l ∈ st.c.labels) → (∀ l ∈ b, l ∈ st.c.labels) → a ≠ [] → b ≠ [] →
+      Returns (addSumTwoNumbersWithShift shift a b be) st (fun _ => True)) ∧
+    (∀ ins basis b, BasisArg.resolve basis = .ok b → ins ≠ [] → (∀ x ∈ ins, x.2 ∈ st.c.labels) →
+      Returns (addSumWeightedNaive ins basis) st (fun _ => True)) ∧
+    (∀ ins basis b, BasisArg.resolve basis = .ok b → ins ≠ [] → (∀ x ∈ ins, x.2 ∈ st.c.labels) →
+      Returns (addSumWeighted ins basis) st (fun _ => True)) ∧
+    (∀ ins be basis b, BasisArg.resolve basis = .ok b → ins ≠ [] → (∀ l ∈ ins, l ∈ st.c.labels) →
+      Returns (addSumPow2M1 ins be basis) st (fun r => r ≠ [])) := by
+  have hinv := Inv.nil st
+  have hk := kn_labels st
+  refine ⟨?_, ?_, ?_, ?_, ?_, ?_, ?_⟩
+  · intro ins basis b be hb hi
+    exact returns_of_ok (ok_addSumNBits (be := be) hinv hk hi hb)
+  · intro ins be hi
+    exact returns_of_ok (ok_addSumNBitsEasy (be := be) hinv hk hi)
+  · intro a b be ha hb hna hnb
+    exact returns_of_ok (ok_addSumTwoNumbers (be := be) hinv hk ha hb hna hnb)
+  · intro shift a b be ha hb hna hnb
+    exact returns_of_ok ((ok_addSumTwoNumbersWithShift (shift := shift) (be := be) hinv hk ha hb (fun _ => hna) (fun _ => hnb)).mono
+      (fun _ _ ⟨i, k, _⟩ => ⟨i, k, trivial⟩))
+  · intro ins basis b hb hne hi
+    exact returns_of_ok (ok_addSumWeightedNaive hinv hk hb hne hi)
+  · intro ins basis b hb hne hi
+    exact returns_of_ok (ok_addSumWeighted hinv hk hb hne hi)
+  · intro ins be basis b hb hne hi
+    exact returns_of_ok (ok_addSumPow2M1 (be := be) hinv hk hb hne hi)
+
+#print axioms c07_generators_return
 
 end Cirbo
